@@ -45,6 +45,11 @@ impl Scheduler {
 
     /// Perform a context switch
     pub(crate) fn switch() {
+        #[cfg(loom_verif)]
+        if verif::on_switch() {
+            return;
+        }
+
         use std::future::Future;
         use std::pin::Pin;
         use std::ptr;
@@ -159,3 +164,7 @@ fn spawn_thread(f: Box<dyn FnOnce()>, stack_size: Option<usize>) -> Thread {
 unsafe fn transmute_lt<'a, 'b>(state: &'a RefCell<State<'b>>) -> &'a RefCell<State<'static>> {
     ::std::mem::transmute(state)
 }
+
+#[cfg(loom_verif)]
+#[path = "/verif/hooks/scheduler_verif.rs"]
+pub(crate) mod verif;
